@@ -202,3 +202,29 @@ package dispatcher
 //@   loop 1 invariant [max_so_far] rangeindex < len(targets) && maxTimeout >= 0 && forall k int :: 0 <= k && k <= rangeindex ==> maxTimeout >= effTargetTimeout(targets[k])
 //@   ensures [C03:lease_covers_every_target_timeout_for_the_whole_batch_plus_slack] forall k int :: 0 <= k && k < len(targets) ==> result >= effTargetTimeout(targets[k]) * max(dequeueBatch, 1) + leaseSlack
 //@   ensures [C03:lease_at_least_30s] result >= 30000000000
+
+// ---- C06: batched settlement applies to every lease exactly the action decided for it (own delay, own reason) ----
+
+//@ iface queue.LeaseBatchStore.AckBatch(self, leaseIDs) (res, err)
+//@ iface queue.LeaseBatchStore.NackBatch(self, leaseIDs, delay) (res, err)
+//@ iface queue.LeaseBatchStore.MarkDeadBatch(self, leaseIDs, reason) (res, err)
+//@ func (*PushDispatcher).applyLeaseAction
+//@   trusted
+//@ func (*PushDispatcher).logBatchConflicts
+//@   trusted
+
+//@ func leaseIDsFromActions
+//@   loop 1 invariant [ids_so_far] rangeindex < len(actions) && len(out) == rangeindex + 1 && forall k int :: 0 <= k && k < len(out) ==> out[k] == actions[k].leaseID
+//@   ensures [C06:ids_are_the_actions_lease_ids_in_order] len(result) == len(actions) && forall k int :: 0 <= k && k < len(result) ==> result[k] == actions[k].leaseID
+
+//@ func (*PushDispatcher).applyLeaseActionsBatch
+//@   requires d != nil
+//@   loop 1 invariant [maps_made] nacksByDelay != nil && deadByReason != nil
+//@   loop 1 invariant [nack_groups_share_one_delay] forall dl time.Duration, k int :: dl in nacksByDelay && 0 <= k && k < len(nacksByDelay[dl]) ==> allocated(nacksByDelay[dl].arr) && nacksByDelay[dl][k].delay == dl && nacksByDelay[dl][k].kind == leaseActionNack
+//@   loop 1 invariant [dead_groups_share_one_reason] forall rs string, k int :: rs in deadByReason && 0 <= k && k < len(deadByReason[rs]) ==> allocated(deadByReason[rs].arr) && deadByReason[rs][k].reason == rs && deadByReason[rs][k].kind == leaseActionMarkDead
+//@   loop 1 invariant [acks_are_acks] (len(acks) > 0 ==> allocated(acks.arr)) && forall k int :: 0 <= k && k < len(acks) ==> acks[k].kind == leaseActionAck
+//@   loop 3 invariant [groups_are_homogeneous] forall dl time.Duration, k int :: dl in nacksByDelay && 0 <= k && k < len(nacksByDelay[dl]) ==> nacksByDelay[dl][k].delay == dl && nacksByDelay[dl][k].kind == leaseActionNack
+//@   loop 5 invariant [groups_are_homogeneous] forall rs string, k int :: rs in deadByReason && 0 <= k && k < len(deadByReason[rs]) ==> deadByReason[rs][k].reason == rs && deadByReason[rs][k].kind == leaseActionMarkDead
+//@   calls queue.LeaseBatchStore.NackBatch requires [C06:every_lease_in_a_nack_batch_was_given_exactly_this_delay] len(callee_leaseIDs) == len(grouped) && forall k int :: 0 <= k && k < len(grouped) ==> grouped[k].delay == callee_delay && grouped[k].kind == leaseActionNack && callee_leaseIDs[k] == grouped[k].leaseID
+//@   calls queue.LeaseBatchStore.MarkDeadBatch requires [C06:every_lease_in_a_dead_letter_batch_was_given_exactly_this_reason] len(callee_leaseIDs) == len(grouped) && forall k int :: 0 <= k && k < len(grouped) ==> grouped[k].reason == callee_reason && grouped[k].kind == leaseActionMarkDead && callee_leaseIDs[k] == grouped[k].leaseID
+//@   calls queue.LeaseBatchStore.AckBatch requires [C06:only_acks_are_acked] len(callee_leaseIDs) == len(acks) && forall k int :: 0 <= k && k < len(acks) ==> acks[k].kind == leaseActionAck && callee_leaseIDs[k] == acks[k].leaseID
